@@ -176,6 +176,7 @@ pub proof fn lemma_appended(r0: Seq<char>, e: Seq<char>, s: Seq<char>, a: int, b
 //@rewrite `-> Vec<char> {` => `-> (r: Vec<char>) {`
 //@rewrite* `text.iter().skip(i).position(|&c| c == '!')` => `shim_find_bang(text, i)`
 //@rewrite* `text.iter().position(|&c| c == '!')` => `shim_find_bang(text, 0)`
+//@rewrite* `text[i..].iter().position(|&c| c == '!')` => `shim_find_bang(text, i)`
 //@rewrite `result.extend(cycle_endpoint(&text[part_start..i]));` => `let mut __e = cycle_endpoint(&text[part_start..i]); let ghost e0 = __e@; result.append(&mut __e);`
 //@loop 1
         invariant 0 <= i <= n, n == text@.len(), norm(result@) =~= norm(text@.take(i as int))
